@@ -109,6 +109,8 @@ type Exec struct {
 	nReturns      int
 	replay        *ReplayInfo
 	loopHead      *State
+	inLoopHavoc   bool
+	written       map[string]bool // heap keys written on objects the caller can see
 	factSink      *State // receives type-invariant facts discovered while evaluating contract expressions
 }
 
@@ -1024,6 +1026,14 @@ func (x *Exec) markContractMod(m *modSet, c *Contract, fn *types.Func, call *ast
 		return
 	}
 	// forms: "p[*]" (elements of slice param p), "recv.f" / "p.f" (heap field), "G:name" ghost, "#name" ghost field
+	if i := strings.Index(mod, "@"); i >= 0 {
+		if key, ft := x.typedFieldKey(c.Pkg, mod[i+1:]); ft != nil {
+			m.heapKeys[key] = true
+			return
+		}
+		m.heapAll = true
+		return
+	}
 	if strings.HasSuffix(mod, "[*]") {
 		pname := strings.TrimSuffix(mod, "[*]")
 		if arg := x.argForParam(c, fn, call, pname); arg != nil {
@@ -1084,7 +1094,9 @@ func (x *Exec) havoc(h *State, m *modSet) {
 		}
 	}
 	if m.heapAll {
+		x.inLoopHavoc = true
 		x.havocHeapAll(h)
+		x.inLoopHavoc = false
 	} else {
 		var ks []string
 		for k := range m.heapKeys {
@@ -1098,6 +1110,9 @@ func (x *Exec) havoc(h *State, m *modSet) {
 }
 
 func (x *Exec) havocHeapAll(h *State) {
+	if !x.inLoopHavoc {
+		x.noteWrite("*", nil)
+	}
 	h.epoch = x.nextEpoch()
 	h.heap = map[string]*Term{}
 	h.hv = map[string]int{}
